@@ -133,6 +133,14 @@ fn check_emit(e: &Emit, cx: &mut Cx) -> Res {
                     ensure!(direct.is_ok() == piped.is_ok(), "direct rendering {} but piped rendering {} for {a:?}", direct.describe(), piped.describe());
                 }
             }
+            // an emitted object is already normalised: passing it through the flag-less pipe
+            // must give it back unchanged (clock-free objects)
+            if z.vars.dirty != Some(true) {
+                match cli::version(&cli::sv(&["--source", "stdin", "--output-format", "zerv"]), Some(&out)) {
+                    cli::Run::Ok(again) => ensure!(again == out, "an object emitted by `version {a:?}` is changed by `version --source stdin --output-format zerv`:\n--- emitted\n{out}\n--- after the pipe\n{again}"),
+                    other => return fail(format!("piping an emitted object fails: {}", other.describe())),
+                }
+            }
             lossless(&z, cx, false)
         }
         Emit::Flow(c) => {
@@ -153,6 +161,12 @@ fn check_emit(e: &Emit, cx: &mut Cx) -> Res {
                 && let (Ok(Ok(Some(d))), cli::Run::Ok(p)) = (&direct, &piped)
             {
                 ensure!(d == p, "template {t:?}: direct {d:?} vs piped {p:?}");
+            }
+            if z.vars.dirty != Some(true) {
+                match cli::version(&cli::sv(&["--source", "stdin", "--output-format", "zerv"]), Some(&out)) {
+                    cli::Run::Ok(again) => ensure!(again == out, "an object emitted by `flow {a:?}` is changed by `version --source stdin --output-format zerv`:\n--- emitted\n{out}\n--- after the pipe\n{again}"),
+                    other => return fail(format!("piping an emitted object fails: {}", other.describe())),
+                }
             }
             lossless(&z, cx, false)
         }
